@@ -214,7 +214,10 @@ impl Gen {
             }
             3 | 4 => {
                 // expand an open position: by the owner, or through the pool manager (lock into existing position)
-                let open: Vec<_> = positions.iter().filter(|p| p.open).collect();
+                // one time in eight the target is a position that is already closed (must be refused, whatever the amount)
+                let want_open = !self.rng.chance(1, 8);
+                let mut open: Vec<_> = positions.iter().filter(|p| p.open == want_open).collect();
+                if open.is_empty() { open = positions.iter().filter(|p| p.open).collect(); }
                 if open.is_empty() { return; }
                 let p = (*self.rng.pick(&open)).clone();
                 let owner = self.sim.sym(p.receiver.as_str());
@@ -248,7 +251,10 @@ impl Gen {
             }
             6 | 7 | 8 => {
                 // claim then close (full or partial)
-                let open: Vec<_> = positions.iter().filter(|p| p.open).collect();
+                // one time in eight the target is a position that is already closed (must be refused, whatever the amount)
+                let want_open = !self.rng.chance(1, 8);
+                let mut open: Vec<_> = positions.iter().filter(|p| p.open == want_open).collect();
+                if open.is_empty() { open = positions.iter().filter(|p| p.open).collect(); }
                 if open.is_empty() { return; }
                 let p = (*self.rng.pick(&open)).clone();
                 let owner = self.sim.sym(p.receiver.as_str());
@@ -346,7 +352,10 @@ impl Gen {
             }
             19 => {
                 // the pool manager (as a sender) and strangers try to manage somebody's position
-                let open: Vec<_> = positions.iter().filter(|p| p.open).collect();
+                // one time in eight the target is a position that is already closed (must be refused, whatever the amount)
+                let want_open = !self.rng.chance(1, 8);
+                let mut open: Vec<_> = positions.iter().filter(|p| p.open == want_open).collect();
+                if open.is_empty() { open = positions.iter().filter(|p| p.open).collect(); }
                 if open.is_empty() { return; }
                 let p = (*self.rng.pick(&open)).clone();
                 let s = if self.rng.chance(2, 3) { "PM".to_string() } else { self.user() };
@@ -1317,6 +1326,60 @@ impl Gen {
         self.tx("alice", SMsg::FmClaim(None), vec![]);
     }
 
+    /// every position operation against every position state: open, closed and still locked, closed and unlocked, split off by
+    /// a partial close, withdrawn; by the owner and by somebody else; full, equal-amount, smaller and larger amounts
+    fn probe_position_states(&mut self) {
+        let Some(p) = self.mk_pool("a", &[("uom", 6), ("uusd", 6)], None, Self::std_fees()) else { return; };
+        let lp = self.lp_of(&p);
+        for u in ["alice", "bob", "carol"] { self.plain_provide(u, &p, vec![("uom".into(), 1_000_000_000), ("uusd".into(), 1_000_000_000)], None); }
+        let a = 1000 + (self.rng.below(9) as u128) * 111;
+        self.tx("alice", SMsg::FmPosCreate { id: Some("a".into()), dur: DAY, receiver: None }, vec![(lp.clone(), a)]);
+        self.tx("alice", SMsg::FmPosCreate { id: Some("a2".into()), dur: 2 * DAY, receiver: None }, vec![(lp.clone(), a)]);
+        self.tx("bob", SMsg::FmPosCreate { id: Some("b".into()), dur: DAY, receiver: None }, vec![(lp.clone(), 2 * a)]);
+        self.mk_farm("carol", &lp, "uusdc", 2000, 8, Some("f".into()), 1);
+        self.next_epoch();
+        self.tx("alice", SMsg::FmClaim(None), vec![]);
+        // close in full, then every operation on the closed (still locked) position
+        self.tx("alice", SMsg::FmPosClose("u-a".into(), None), vec![]);
+        self.tx("alice", SMsg::FmPosClose("u-a".into(), None), vec![]);
+        self.tx("alice", SMsg::FmPosClose("u-a".into(), Some((lp.clone(), a))), vec![]);
+        self.tx("alice", SMsg::FmPosClose("u-a".into(), Some((lp.clone(), a / 3))), vec![]);
+        self.tx("alice", SMsg::FmPosClose("u-a".into(), Some((lp.clone(), a + 1))), vec![]);
+        self.tx("bob", SMsg::FmPosClose("u-a".into(), Some((lp.clone(), a / 3))), vec![]);
+        self.tx("alice", SMsg::FmPosExpand("u-a".into()), vec![(lp.clone(), 10)]);
+        self.tx("alice", SMsg::FmPosWithdraw("u-a".into(), None), vec![]);
+        self.next_epoch();
+        self.q_rewards("bob", None);
+        self.tx("bob", SMsg::FmClaim(None), vec![]);
+        self.tx("alice", SMsg::FmClaim(None), vec![]);
+        // a partial close splits off a closed position with a generated identifier: the same operations on it
+        self.tx("alice", SMsg::FmPosClose("u-a2".into(), Some((lp.clone(), a / 2))), vec![]);
+        let split: Vec<String> = self.sim.positions().iter().filter(|x| !x.open && x.identifier.starts_with("p-")).map(|x| x.identifier.clone()).collect();
+        for id in split.iter() {
+            self.tx("alice", SMsg::FmPosClose(id.clone(), Some((lp.clone(), a / 5))), vec![]);
+            self.tx("alice", SMsg::FmPosClose(id.clone(), None), vec![]);
+            self.tx("alice", SMsg::FmPosExpand(id.clone()), vec![(lp.clone(), 10)]);
+        }
+        self.next_epoch();
+        self.q_rewards("bob", None);
+        self.tx("bob", SMsg::FmClaim(None), vec![]);
+        // unlocked now: withdraw, then every operation on the withdrawn position
+        self.advance(DAY);
+        self.tx("bob", SMsg::FmPosWithdraw("u-a".into(), None), vec![]);
+        self.tx("alice", SMsg::FmPosWithdraw("u-a".into(), None), vec![]);
+        self.tx("alice", SMsg::FmPosWithdraw("u-a".into(), Some(true)), vec![]);
+        self.tx("alice", SMsg::FmPosClose("u-a".into(), Some((lp.clone(), a / 3))), vec![]);
+        self.tx("alice", SMsg::FmPosExpand("u-a".into()), vec![(lp.clone(), 10)]);
+        for id in split.iter() { self.tx("alice", SMsg::FmPosWithdraw(id.clone(), Some(true)), vec![]); }
+        self.tx("alice", SMsg::FmClaim(None), vec![]);
+        self.tx("alice", SMsg::FmPosWithdraw("u-a2".into(), Some(true)), vec![]);
+        self.next_epoch();
+        self.q_rewards("bob", None);
+        self.tx("bob", SMsg::FmClaim(None), vec![]);
+        self.tx("bob", SMsg::FmPosClose("u-b".into(), Some((lp.clone(), a))), vec![]);
+        self.tx("bob", SMsg::FmPosClose("u-b".into(), Some((lp.clone(), a))), vec![]);
+    }
+
     /// claims that pay nothing, in the opening epoch and later; until_epoch claims around an expansion
     fn probe_empty_claims(&mut self) {
         let Some(p) = self.mk_pool("a", &[("uom", 6), ("uusd", 6)], None, Self::std_fees()) else { return; };
@@ -1433,7 +1496,7 @@ pub fn generate_probes(seed: u64, count: usize) -> Family {
         "From MD.Model Require Import Base Ownable Epoch PoolMath Types PoolManager FarmManager Chain CasesChain.",
         "chain_case",
         "run_chain_case",
-        "deterministic probe scripts, one per narrow situation (asset order after a slippage-protected deposit, foreign lock identifiers, malformed route junctions, extra fees, all feature-switch combinations, single-asset corner cases, farm funds in the fee denom, expiry windows, penalty sharing, thirds, position limit, empty claims, fractional weights, failing refunds, huge and unusual decimals); amounts vary with the PRNG; full canonical snapshot compared after every operation",
+        "deterministic probe scripts, one per narrow situation (asset order after a slippage-protected deposit, foreign lock identifiers, malformed route junctions, extra fees, all feature-switch combinations, single-asset corner cases, farm funds in the fee denom, expiry windows, penalty sharing, thirds, position limit, empty claims, fractional weights, failing refunds, huge and unusual decimals, every position operation against every position state); amounts vary with the PRNG; full canonical snapshot compared after every operation",
     );
     type F = fn(&mut Gen);
     let list: Vec<(&str, F)> = vec![
@@ -1442,6 +1505,7 @@ pub fn generate_probes(seed: u64, count: usize) -> Family {
         ("farm-funds", Gen::probe_farm_funds as F), ("expiry-window", Gen::probe_expiry_window as F), ("penalty-split", Gen::probe_penalty_split as F),
         ("thirds", Gen::probe_thirds as F), ("position-limit", Gen::probe_position_limit as F), ("empty-claims", Gen::probe_empty_claims as F),
         ("fractional-weights", Gen::probe_fractional_weights as F), ("failing-refunds", Gen::probe_failing_refunds as F), ("big-and-decimals", Gen::probe_big_and_decimals as F),
+        ("position-states", Gen::probe_position_states as F),
     ];
     let mut rng = Rng::new(seed ^ 0x9B0B);
     let mut i = 0usize;
